@@ -300,6 +300,8 @@ def list_method(interp, lst: list, name, args, kwargs):
     if name == "copy":
         return list(lst)
     if name in ("remove", "index", "count"):
+        if len(args) != 1 or kwargs:
+            raise Unsupported(f"list.{name} with start/stop arguments")
         x = args[0]
         if name == "count":
             n = 0
@@ -349,6 +351,8 @@ def slist_get(interp, lst: SList, idx_term, check=True, name="index-in-bounds"):
 
 
 def slist_method(interp, lst: SList, name, args, kwargs):
+    if kwargs or len(args) > 1:
+        raise Unsupported(f"list.{name} with these arguments on a symbolic list")
     if name == "append":
         terms = _encode(interp, lst.codec, args[0])
         lst.arrays = tuple(z3.Store(a, lst.length, t) for a, t in zip(lst.arrays, terms))
